@@ -141,6 +141,7 @@ INLINE = [
     '<text:span text:style-name="T1">span</text:span>', '<text:span text:style-name="T1"> lead</text:span>',
     '<text:span text:style-name="T1"><text:s/>in<text:tab/></text:span>',
     '<text:a xlink:href="http://example.org/" xlink:type="simple">link</text:a>',
+    '<text:a xlink:href="http://example.org/x" xlink:type="simple">see <text:span text:style-name="T1">the site</text:span> now</text:a>',
     '<text:note text:id="ftn1" text:note-class="footnote"><text:note-citation>1</text:note-citation>'
     "<text:note-body><text:p>note body</text:p></text:note-body></text:note>",
     '<draw:frame draw:name="f1" text:anchor-type="as-char" svg:width="1cm" svg:height="1cm">'
